@@ -6,18 +6,40 @@ package fields
 // The Must* writers panic only when the underlying io.Writer fails. Their
 // callers under contract write to in-memory buffers (wal.bufferSegment,
 // sst.entryBuffer) whose Write never returns an error: assumed, listed.
+// For C17 they are verified: what they return and append is what the write* functions do.
 //@ func MustWriteUint64
 //@   property C08 C17
-//@   trusted
+//@   trusted{C08}
+//@   nosafety
+//@   modifies{C17} w.stream
+//@   ensures{C17} result == 8 && appended(w, 8)
+//@   ensures{C17} uint64(w.stream[old(len(w.stream))]) == n%256 && uint64(w.stream[old(len(w.stream))+1]) == (n/256)%256 &&
+//@           uint64(w.stream[old(len(w.stream))+2]) == (n/65536)%256 && uint64(w.stream[old(len(w.stream))+3]) == (n/16777216)%256 &&
+//@           uint64(w.stream[old(len(w.stream))+4]) == (n/4294967296)%256 && uint64(w.stream[old(len(w.stream))+5]) == (n/1099511627776)%256 &&
+//@           uint64(w.stream[old(len(w.stream))+6]) == (n/281474976710656)%256 && uint64(w.stream[old(len(w.stream))+7]) == (n/72057594037927936)%256
 //@ func MustWriteUint32
 //@   property C08 C17
-//@   trusted
+//@   trusted{C08}
+//@   nosafety
+//@   modifies{C17} w.stream
+//@   ensures{C17} result == 4 && appended(w, 4)
+//@   ensures{C17} uint32(w.stream[old(len(w.stream))]) == v%256 && uint32(w.stream[old(len(w.stream))+1]) == (v/256)%256 &&
+//@           uint32(w.stream[old(len(w.stream))+2]) == (v/65536)%256 && uint32(w.stream[old(len(w.stream))+3]) == (v/16777216)%256
 //@ func MustWriteVarBytes
 //@   property C08 C17
-//@   trusted
+//@   trusted{C08}
+//@   nosafety
+//@   requires{C17} len(key) < 4294967296
+//@   modifies{C17} w.stream
+//@   ensures{C17} result == 4+len(key) && appended(w, 4+len(key))
+//@   ensures{C17} int(w.stream[old(len(w.stream))]) + int(w.stream[old(len(w.stream))+1])*256 + int(w.stream[old(len(w.stream))+2])*65536 + int(w.stream[old(len(w.stream))+3])*16777216 == len(key)
+//@   ensures{C17} forall(0, len(key), func(i int) bool { return w.stream[old(len(w.stream))+4+i] == key[i] })
 //@ func MustWriteTombstone
 //@   property C08 C17
-//@   trusted
+//@   trusted{C08}
+//@   nosafety
+//@   modifies{C17} w.stream
+//@   ensures{C17} result == 1 && appended(w, 1) && (w.stream[old(len(w.stream))] == 1) == deleted && (w.stream[old(len(w.stream))] == 0) == !deleted
 
 func forall(lo, hi int, f func(int) bool) bool {
 	for i := lo; i < hi; i++ {
